@@ -1,8 +1,10 @@
 import UpfVerif.Driver.Util
 import UpfVerif.Model.Xlate
+import UpfVerif.Spec.Arrange
+import UpfVerif.Lemmas.Netlink
 /- driver for the S-drv stream: parses child tokens, runs M-Xlate, renders the netlink requests -/
 namespace UpfVerif.Driver.Drv
-open UpfVerif UpfVerif.Driver UpfVerif.Netlink UpfVerif.Xlate
+open UpfVerif UpfVerif.Driver UpfVerif.Netlink UpfVerif.Xlate UpfVerif.Arrange UpfVerif.Rules UpfVerif.Gtp5gRead
 
 def link : Nat := 7
 def family : String := "1f"
@@ -144,6 +146,80 @@ def pdrInDomain (cs : List PdrChild) : Bool :=
       | _ => true
     | _ => true
 
+/-! ### property predicates on the implementation's own request bytes (C02, C03) -/
+
+/-- the implementation's result field: `<ok|err> <req>;<req>… [perio=…]` → (ok, [(cmd, flags, attribute bytes)], perio) -/
+def parseImpl (impl : String) : Option (Bool × List (Nat × Nat × Bytes) × String) := do
+  let ws := (impl.split (· == ' ')).toList.map (·.toString) |>.filter (· ≠ "")
+  let (okS, reqS, rest) ← match ws with
+    | a :: b :: rest => some (a, b, rest)
+    | _ => none
+  let perio := match rest with
+    | [p] => if p.startsWith "perio=" then (p.drop 6).toString else ""
+    | _ => ""
+  let reqs ← if reqS == "_" then some [] else
+    (splitOn1 reqS ';').mapM fun r => match splitOn1 r '/' with
+      | [c, _, fl, hex] => do pure (← c.toNat?, ← parseHexNat fl, ← parseDash hex)
+      | _ => none
+  pure (okS == "ok", reqs, perio)
+
+/-- the rule request among the implementation's requests: the last one carrying command `cmd` -/
+def ruleReq (reqs : List (Nat × Nat × Bytes)) (cmd : Nat) : Option Bytes :=
+  ((reqs.filter fun r => r.1 == cmd).getLast?).map fun r => r.2.2
+
+def cmpView {α : Type} [DecidableEq α] [Repr α] (prop what : String) (got : Option α) (want : α) : List String :=
+  match got with
+  | none => [s!"{prop} {what}: the request bytes do not decode as a netlink attribute tree"]
+  | some g => if g = want then [] else
+      [s!"{prop} {what}: the rule read back from the netlink request differs from the IE's content: got {reprStr g} want {reprStr want}"]
+
+def checkRule {σ α : Type} [DecidableEq α] [Repr α] (prop what : String) (impl : String) (cmd : Nat)
+    (spec : Option σ) (wf : σ → Bool) (read : List Attr → α) (expect : σ → α) : List String :=
+  match spec with
+  | none => []                 -- not an arrangement of any content: outside the statement
+  | some p =>
+    if !wf p then [] else
+    match parseImpl impl with
+    | none => [s!"{prop} {what}: unparsable implementation result"]
+    | some (ok, reqs, _) =>
+      if !ok then [s!"{prop} {what}: a well-formed IE was rejected by the driver"] else
+      match ruleReq reqs cmd with
+      | none => [s!"{prop} {what}: no rule request reached the data plane"]
+      | some b => cmpView prop what ((decodeTree b).map read) (expect p)
+
+/-- GET_FAR look-ups of an Update FAR must address the FAR the IE names (order independence, C02) -/
+def checkFarGets (impl : String) (seid : Nat) (p : Option FarSpec) : List String :=
+  match p, parseImpl impl with
+  | some p, some (_, reqs, _) =>
+    let gets := reqs.filter fun r => r.1 == Gen.gtp5gnl.CMD_GET_FAR
+    let bad := gets.filter fun r =>
+      match decodeTree r.2.2 with
+      | some as => !((leaf1 as A.farId).map rd32 == some p.id && (leaf1 as A.farSeid).map rd64 == some seid)
+      | none => true
+    if bad.isEmpty then [] else
+      [s!"C02 update-far: the look-up made for the Apply Action does not address FAR {p.id} of this session (child order dependence) sig=updFarOrder"]
+  | _, _ => []
+
+/-- periodic registration demanded by C03 for this URR IE, rendered like the harness's dump -/
+def wantPerio (seid : Nat) (p : UrrSpec) : Option String :=
+  if p.periodic then
+    match p.period with
+    | some sec => if sec == 0 then none else some s!"{sec}:{natHex seid}/{p.id}"
+    | none => none
+  else some "_"
+
+def checkPerio (op : String) (impl : String) (seid : Nat) (spec : Option UrrSpec) : List String :=
+  match spec with
+  | none => []
+  | some p =>
+    if !UrrSpec.wfb p then [] else
+    match parseImpl impl, wantPerio seid p with
+    | some (true, _, got), some want =>
+      if got == want then [] else
+        let sig := if op == "update" then " sig=updUrrPerio" else ""
+        [s!"C03 {op}-urr: periodic registration is '{got}', the IE's triggers and period demand '{want}'{sig}"]
+    | _, _ => []
+
 /-- `T drv.<kind>.<op> <seid> tokens… = <res> <reqs> [perio=…]` -/
 def eval (fn : String) (args : List String) (impl : String) : Option Verdict := do
   let (seidS, toks) ← match args with
@@ -155,21 +231,30 @@ def eval (fn : String) (args : List String) (impl : String) : Option Verdict := 
     let cs ← toks.mapM parsePdrChild
     if !pdrInDomain cs then pure { model := impl } else
     let r := if fn == "drv.pdr.create" then createPDR link seid cs else updatePDR link seid cs
-    pure { model := resShow (true, [r]) }
+    pure { model := resShow (true, [r]),
+           propFails := checkRule "C02" fn impl Cmd.addPdr (specPdr cs) PdrSpec.wfb readPdr (expectPdr link seid) }
   | "drv.far.create" | "drv.far.update" =>
     let cs ← toks.mapM parseFarChild
     let r := if fn == "drv.far.create" then createFAR link seid cs else updateFAR link seid cs
-    pure { model := resShow r }
+    pure { model := resShow r,
+           propFails := checkRule "C02" fn impl Cmd.addFar (specFar cs) FarSpec.wfb readFar (expectFar link seid)
+                        ++ (if (specFar cs).any FarSpec.wfb then checkFarGets impl seid (specFar cs) else []) }
   | "drv.qer.create" | "drv.qer.update" =>
     let cs ← toks.mapM parseQerChild
-    pure { model := resShow (true, [qerReq link seid (if fn == "drv.qer.create" then flCreate else flUpdate) cs]) }
+    pure { model := resShow (true, [qerReq link seid (if fn == "drv.qer.create" then flCreate else flUpdate) cs]),
+           propFails := checkRule "C03" fn impl Cmd.addQer (specQer cs) QerSpec.wfb readQer (expectQer link seid) }
   | "drv.urr.create" | "drv.urr.update" =>
     let cs ← toks.mapM parseUrrChild
     let (r, p) := if fn == "drv.urr.create" then createURR link seid cs else updateURR link seid cs
-    pure { model := resShow r ++ " perio=" ++ perioShow p }
+    let create := fn == "drv.urr.create"
+    let spec := (specUrr cs).filter fun p => !(create && (p.period == some 0 || (p.periodic && p.period.isNone)))
+    pure { model := resShow r ++ " perio=" ++ perioShow p,
+           propFails := checkRule "C03" fn impl Cmd.addUrr spec UrrSpec.wfb readUrr (expectUrr link seid)
+                        ++ checkPerio (if create then "create" else "update") impl seid spec }
   | "drv.bar.create" | "drv.bar.update" =>
     let cs ← toks.mapM parseBarChild
-    pure { model := resShow (true, [barReq link seid (if fn == "drv.bar.create" then flCreate else flUpdate) cs]) }
+    pure { model := resShow (true, [barReq link seid (if fn == "drv.bar.create" then flCreate else flUpdate) cs]),
+           propFails := checkRule "C03" fn impl Cmd.addBar (specBar cs) (fun _ => true) readBar (expectBar link seid) }
   | _ => none
 
 end UpfVerif.Driver.Drv
